@@ -79,7 +79,7 @@ CHECKS = {
   design="7/C17"),
  "C18": dict(
   technique="black-box differential monitor on the real server binary over loopback: each HTTP response versus the in-process library call with exactly the request's parameters and versus the independent reference model (thorough: also a -race build of the server)",
-  text="The server is built from the working tree and driven with generated well-formed requests to all ten endpoints (every optional field present/absent at random, known and unknown digit/hash spellings, raw and structured suites, white space around secrets, fields of up to ~100 KiB giving large responses) from 1..32 client goroutines on reused and fresh connections; codes, verdicts, echoes, suite list/description, URL and secret responses are compared with the library and the reference; generated codes are fed back to the validate endpoints; 2..16 requests are pipelined on one connection and judged in order; a share of the requests is sent in another lexical form of the same JSON text (string escapes, white space between tokens) and must be answered like the plain form; 6000..60000 requests with secrets never seen before in one server process, with secrets from the start coming back after 10..50000 others; identical requests without a timestamp repeated as the clock moves on (periods 1 and 2 s), each verdict bracketed by the instants of its exchange; at both ends of the 64-bit counter range the validate verdict is judged against the library alone; 'timestamp omitted' is bracketed by the client's clock around the timestamp the server reports.",
+  text="The server is built from the working tree and driven with generated well-formed requests to all ten endpoints (every optional field present/absent at random, known and unknown digit/hash spellings, raw and structured suites, white space around secrets, fields of up to ~100 KiB giving large responses) from 1..32 client goroutines on reused and fresh connections; codes, verdicts, echoes, suite list/description, URL and secret responses are compared with the library and the reference; generated codes are fed back to the validate endpoints; 2..16 requests are pipelined on one connection and judged in order; pairs in which the second request's head travels with the first request and its body follows only after the first answer has been read; a share of the requests is sent in another lexical form of the same JSON text (string escapes, white space between tokens) and must be answered like the plain form; 6000..60000 requests with secrets never seen before in one server process, with secrets from the start coming back after 10..50000 others; identical requests without a timestamp repeated as the clock moves on (periods 1 and 2 s), each verdict bracketed by the instants of its exchange; at both ends of the 64-bit counter range the validate verdict is judged against the library alone; 'timestamp omitted' is bracketed by the client's clock around the timestamp the server reports.",
   note="Trusted: Go net/http client, reference models. The clock is only read to bracket the server-reported timestamp; no latency verdicts.",
   design="7/C18"),
  "C19": dict(
